@@ -463,6 +463,11 @@ class Shape:
 SHAPE = Shape()
 
 
+class FragmentFault(Undecided):
+    """The interpreted fragment performs an operation that is definitely invalid on the analysed configuration
+    (an index out of range of a tensor whose shape is exact): a defect of the fragment, not of the analysis."""
+
+
 class NotHandled(Exception):
     """Raised by a method model that does not apply to the receiver it was given."""
 
